@@ -7,7 +7,8 @@ import sysgen
 from c09 import _signal
 from common import Cmat, Cx, R, cfl, fl, max_rel_err
 
-LEAN_MODULES = ["PyomaVerif.Props.C08", "PyomaVerif.Props.C08Pipe", "PyomaVerif.Props.C08Unity", "PyomaVerif.Props.C08Ms", "PyomaVerif.Props.C08Perm"]
+LEAN_MODULES = ["PyomaVerif.Props.C08", "PyomaVerif.Props.C08Pipe", "PyomaVerif.Props.C08Unity", "PyomaVerif.Props.C08Ms", "PyomaVerif.Props.C08Perm",
+                "PyomaVerif.Props.C08PermPlscf"]
 THEOREMS = [
     "PV.C08.C08_gain_hank_mm",
     "PV.C08.C08_gain_hank_R",
@@ -83,6 +84,15 @@ THEOREMS = [
     "PV.C08.fddOne_perm",
     "PV.C08.C08_perm_fdd_mpe",
     "PV.C08.C08_perm_fdd_data",
+    # pLSCF under a channel permutation: normal equations, certificate, rmfd2ac, eigen-record, column (Props/C08PermPlscf.lean)
+    "PV.C08.C08_perm_plscf_normal",
+    "PV.C08.C08_perm_plscf_cert",
+    "PV.C08.C08_perm_plscf_order",
+    "PV.C08.C08_perm_plscf_rmfd",
+    "PV.C08.C08_perm_plscf_column",
+    "PV.C08.C08_perm_plscf",
+    "PV.C08.C08_perm_plscf_poles",
+    "PV.C08.C08_perm_plscf_square",
 ]
 RULE = (
     "metamorphic oracle on the real code: every algorithm class (FDD, EFDD, FSDD, SSIcov[cov_mm, cov_R], SSIdat, pLSCF[per, cor] and "
